@@ -1,5 +1,6 @@
 import Nsq.Model.Line
 import Nsq.Model.Registry
+import Nsq.Model.RegistryStar
 import Nsq.Model.RegistryProto
 /-! Driver for engine E4 (nsqlookupd): replays `.ops` lines through the Registry / RegistryProto
 models and prints one canonical answer line per op (see harness/e4/*_test.go for the writer).
@@ -15,6 +16,10 @@ models and prints one canonical answer line per op (see harness/e4/*_test.go for
   <now> spoof <p> <victim conn> <extra keys|-> <bcast> <host> <ver> <tcp> <http> <hex of what follows the body> [k=<n>]
   <now> abort <p> identify|register|unregister|ping <args as above>   (send, do not read the answer, close)
   <now> q
+  <now> http tombstone 0 2a _ <node> pick=<p>:<hex topic>,…|-   wild-card tombstone; the pick is what the real run chose
+        (ACCEPTOR: answered `invalid-pick` unless the pick is admissible — `pickValidB`, one entry per peer, node matches)
+  <now> qstar obs=<p>,…|-|404    /channels?topic=* and /lookup?topic=*; obs = the producers the real answer listed; the
+        model answers with `qLookupStar` under a pick chosen to reproduce obs (if no admissible pick does, the lines differ)
   noq <line>   apply, print `noq`;   st <line>   apply, print only the reply (no query answers)
 -/
 open Nsq Nsq.Line Nsq.Model.Registry Nsq.Model.RegistryProto
@@ -117,6 +122,39 @@ def endStr : End → String
   | .panic => "panic"
   | _ => "closed"
 
+def parsePick (tok : String) : Option (List (Nat × Name)) :=
+  match tok.splitOn "=" with
+  | ["pick", body] =>
+    if body = "-" then some []
+    else (body.splitOn ",").mapM (fun e =>
+      match e.splitOn ":" with
+      | [p, t] =>
+        match p.toNat?, unhex t with
+        | some p, some t => some (p, t)
+        | _, _ => none
+      | _ => none)
+  | _ => none
+
+def parseObs (tok : String) : Option (List Nat) :=
+  match tok.splitOn "=" with
+  | ["obs", body] =>
+    if body = "-" || body = "404" then some []
+    else (body.splitOn ",").mapM (fun e => e.toNat?)
+  | _ => none
+
+/-- the pick the observation names; peers it does not name keep the list-order pick -/
+def pickOfList (db : DB) (l : List (Nat × Name)) : Pick :=
+  fun id => match l.find? (fun e => e.1 = id) with
+    | some e => e.2
+    | none => firstPick db id
+
+/-- a pick under which `/lookup?topic=*` lists exactly `obs`, if there is one: a listed peer is
+represented by a topic it is not tombstoned for, an unlisted one by a topic it is tombstoned for -/
+def pickForObs (c : Conf) (r : Registry) (obs : List Nat) (now : Int) : Pick :=
+  fun id => match (topicsOf r.db id).find? (fun t => tombFlag c r id t now != obs.contains id) with
+    | some t => t
+    | none => firstPick r.db id
+
 def withQ (s : DSt) (now : Int) (out : String) : DSt × String := (s, out ++ " | " ++ queries s now)
 
 def stepLine1 (s : DSt) (line : String) : DSt × String :=
@@ -160,6 +198,30 @@ def stepLine1 (s : DSt) (line : String) : DSt × String :=
         match p.toNat? with
         | some p => withQ { s with reg := disconnect s.reg p } now "closed"
         | none => (s, "bad-op")
+      | ["qstar", obsTok] =>
+        match parseObs obsTok with
+        | none => (s, "bad-op")
+        | some obs =>
+          let pick := pickForObs s.conf s.reg obs now
+          let cs := "C[*]=" ++ joinS ((qChannels s.reg star).map nm)
+          let l := match qLookupStar s.conf s.reg pick now with
+            | none => "L[*]=404"
+            | some (a : LookupAns) => "L[*]=ch=" ++ joinS (a.channels.map nm) ++ ";pr=" ++
+                joinS (a.producers.map (fun (e : Nat × Info) => s!"{e.1}:{infoStr e.2}"))
+          withQ s now (if pickValidB s.reg.db pick then s!"qstar {cs} {l}" else "invalid-pick")
+      | ["http", "tombstone", bad, t, c, n, pickTok] =>
+        match parseArgs bad t c n, parsePick pickTok with
+        | some a, some pl =>
+          match a.node with
+          | some node =>
+            let pick := pickOfList s.reg.db pl
+            if a.badQuery || a.topic != some star then (s, "bad-op")
+            else if pickValidB s.reg.db pick && (pl.map (·.1)).eraseDups.length == pl.length &&
+                    pl.all (fun (e : Nat × Name) => nodeMatches s.reg e.1 node && (topicsOf s.reg.db e.1).contains e.2) then
+              withQ { s with reg := tombstoneStar s.reg pick node now } now "200"
+            else withQ s now "invalid-pick"
+          | none => (s, "bad-op")
+        | _, _ => (s, "bad-op")
       | ["http", h, bad, t, c, n] =>
         match parseArgs bad t c n with
         | none => (s, "bad-op")
@@ -179,7 +241,11 @@ def stepLine1 (s : DSt) (line : String) : DSt × String :=
         | none => (s, "bad-op")
         | some a =>
           let x := httpStep s.conf s.reg m path a now
-          withQ { s with reg := x.1 } now s!"status={x.2}"
+          -- `/ping` answers the two bytes "OK" (`pingBody`), `/info` the document {"version": …} (`infoKeys`)
+          let body := if m = "GET" && path = "/ping" && x.2 = 200 then " body=" ++ hex pingBody
+                      else if m = "GET" && path = "/info" && x.2 = 200 then " body=" ++ ",".intercalate infoKeys
+                      else ""
+          withQ { s with reg := x.1 } now (s!"status={x.2}" ++ body)
       | "stream" :: p :: bytes :: dec =>
         match p.toNat?, unhex bytes with
         | some p, some bs =>
